@@ -9,7 +9,8 @@ def check(run):
                        "the loaded object must load successfully, dump to identical text, satisfy OK(), denote the same value, and is driven "
                        "on as a twin (all later answers are validated against the same value); distinct = distinct status lines dumped")
     ops = polylib.OPS_MUT + ['dumpload', 'dumpload', 'is_empty', 'min_generators', 'constraints', 'contains', 'maximize', 'relation_with_constraint', 'swap', 'assign']
-    plans = [dict(maxlen=12, maxdim=2, ill=0, coef=2, num=(1500 if q else 20000), opset=ops),
+    plans = [dict(maxlen=9, maxdim=2, ill=0, coef=2, num=(3000 if q else 50000), opset=ops, recipe=True),
+             dict(maxlen=12, maxdim=2, ill=0, coef=2, num=(1500 if q else 20000), opset=ops),
              dict(maxlen=10, maxdim=3, ill=0, coef=2, num=(900 if q else 12000), opset=ops)]
     polylib.model_pass(run, ['PolyWorld1.cfg'])
     polylib.run_pool(run, "C15", plans, ("C15:",))
